@@ -6,6 +6,7 @@ CLASS = 'C'
 CRATE = 'vibesql-executor'
 MODULE = 'evaluator::operators::verif_kani_ops'
 UNWIND = 4
+HARNESS_FILE = 'kani/executor/ops.rs'
 DOC = 'Kleene AND/OR; NULL propagation and dispatch of eval_binary_op; exact-or-error integer arithmetic (never wraps, never panics); comparisons are the mathematical relation'
 _O = 'crates/vibesql-executor/src/evaluator/operators/'
 FUNCTIONS = [
